@@ -248,6 +248,11 @@ def run (f : List String) : Option String :=
           "a=" ++ showDec a ++ " b=" ++ showDec (dec o (b.take consumed ++ s))
         else "a=" ++ showDec a
       | _ => "a=" ++ showDec a)
+  | ["encunw", m] => do
+    let m ← parseMsg m
+    some (match runMsgL [] m with
+      | .error _ => "panic"
+      | .ok (w, _) => "ok " ++ hex w)
   | ["encbig", _, m] => do
     -- what is appended does not depend on what the writer holds (C09.encodeInto_append): the value alone
     let m ← parseMsg m
